@@ -418,6 +418,11 @@ def run(ctx):
     # (L) graph construction must not depend on the ORDER of the module list and the import list (which is what the
     # directory enumeration order turns into) - also when a package imports its own direct sub module, which real
     # scans produce for 'a.py' next to 'a/' (outside the scan generators' input language, so it is covered here)
+    # the construction of an architecture as an algorithm (Graph.tla): TLC explores every processing order of the
+    # module and import lists; the real graph is built in several orders and compared with the order-free result
+    from harness.checks import graph_common as gc
+    gfails, gmeta, gmc, gtr = gc.run_all(ctx, 1515)
+    fails = fails + gfails
     listing_diffs, listing_cases = listing_order_cases(ctx, rng)
     for d in listing_diffs:
         fails.append({"prop": "C15", "clause": "architecture-depends-on-the-order-of-modules-or-imports", "detail": d["diff"],
@@ -429,7 +434,8 @@ def run(ctx):
         by_driver.setdefault(spec["driver"], []).append(ep)
     if not applies or not laws:
         raise tlc.MachineryError(f"vacuous run: applies={applies} same-laws={laws}")
-    cov = {"real_source_trees": wtrees, "states": mc.distinct + tr_states, "transitions": mc.generated + tr_trans,
+    cov = {**gmeta, "real_source_trees": wtrees, "states": mc.distinct + tr_states + gmc.distinct + gtr.states,
+           "transitions": mc.generated + tr_trans + gmc.generated + gtr.transitions,
            "model_states": mc.distinct, "model_transitions": mc.generated,
            "traces_validated_against_impl": n_traces, "trace_events": events,
            "simulated_histories": len(hists), "history_length": 40, "applies_compared_with_isolated_evaluation": applies,
@@ -479,6 +485,9 @@ def replay(ctx, rp):
         fails = [{"prop": "C15", "clause": "rule-outcome-depends-on-evaluation-order", "detail": {"rules": bad[:5]},
                   "event": None, "spec": spec, "episode_events": None}] if bad else []
         return CheckResult(fails=fails, coverage={"replayed_rules": len(oa)})
+    if spec["driver"] == "graph":
+        from harness.checks import scan_common as sc
+        return sc.replay(ctx, rp)
     if spec["driver"] == "listing":
         diffs, _ = listing_order_cases(ctx, random.Random(0), only=spec["world"])
         fails = [{"prop": "C15", "clause": "architecture-depends-on-the-order-of-modules-or-imports", "detail": d["diff"],
